@@ -52,7 +52,7 @@ T = {
          "Theorems (Props/C12.v): summarising preserves the root; on a summarised tree every read/mutation of the model is an error or agrees with the full tree. Correspondence: 1..3 summarised positions (exhaustive for small backings) x reads, iterators and single mutations; Go vs model, and the error-or-same relation checked on both.",
          "machine-checked proof (Coq) + differential correspondence + property relation on every case"),
  "C13": ("codec I/O is independent of chunking and surfaces faults",
-         "Theorems (Props/C13.v): the fill loop over any legal delivery schedule returns the same bytes as a one-shot reader (C13_schedule_indep, C13_reader_agrees ties it to the reader model the decoders use); a stream that ends or fails before k bytes makes the read fail; at decoder level a stream shorter than the declared scope never yields a value (C13_short_stream_decode); Skip consumes like a read; a failing writer (lazy or eager error reporting) accepts exactly a prefix and Written equals it. Partial: schedule independence of whole decoders is by the decoders reading only through the primitive proved schedule-independent (not restated over decoders). Correspondence: primitive read sequences over random schedules; every delivery schedule and every failure position for sampled values (view and flat).",
+         "Theorems (Props/C13.v): the fill loop over any legal delivery schedule returns the same bytes as a one-shot reader (C13_schedule_indep, C13_reader_agrees ties it to the reader model the decoders use); a stream that ends or fails before k bytes makes the read fail; at decoder level a stream shorter than the declared scope never yields a value, for the view decoders (C13_short_stream_decode) and for the flat decoders (C13_short_stream_flat); Skip consumes like a read; a failing writer (lazy or eager error reporting) accepts exactly a prefix and Written equals it. Partial: schedule independence of whole decoders is by the decoders reading only through the primitive proved schedule-independent (not restated over decoders). Correspondence: primitive read sequences over random schedules; every delivery schedule and every failure position for sampled values (view and flat), including offsets-only encodings whose truncated offset table leaves stale scratch bytes.",
          "machine-checked proof (Coq) of the I/O primitives + fault/schedule enumeration against the implementation"),
  "C14": ("forks of a hashed tree can be used concurrently",
          "Theorems (Props/C14.v): a fully memoised heap prefix is bit-identical after any step or hash request of any fork (frozen prefix); hash requests commute with steps; fork independence: in EVERY interleaving of the events (all seven operations and hash requests) of any number of forks with disjoint, hook-closed handle sets, each fork observes exactly the outputs and roots of its own sequential run (C14_fork_outputs_independent on the tree machine, C14_interleaving_equals_sequential on the heap machine with its shared memo writes). Partial: the Go memory model is not modelled; data races are searched by go test -race on 2..16 goroutines, not proved absent. Correspondence: per-goroutine observations vs the sequential model replay.",
@@ -64,7 +64,7 @@ T = {
          "Theorems (Props/C16.v, 27 statements): bit_index = log2, bit_length = size, cover_depth = log2_up on all 64-bit inputs; every Gindex64 method on 2^d+p; ToGindex64 accepts exactly d<64, i<2^d; minimal LE/BE/left-aligned encodings decode back. Correspondence: all v < 2^12 (2^17 thorough), 2^k(+-1), random per bit-length class, (index,depth) grid over all 256 depths.",
          "machine-checked proof (Coq) + differential correspondence"),
  "C17": ("iterators agree with indexed access",
-         "Theorems (Props/C17.v): the stack-machine node iterator yields bottom nodes 0..len-1 in order then End forever; packed and bit iterators likewise; ReadonlyIter, Iter and Get agree; with missing data an iterator errs, never returns a wrong component. Correspondence: both iterators (+3 calls) and Get on boundary lengths (31/32/33, 255/256/257, 511/512/513), large limits, random series.",
+         "Theorems (Props/C17.v): the stack-machine node iterator yields bottom nodes 0..len-1 in order then End forever; packed and bit iterators likewise; ReadonlyIter, Iter and Get agree; with missing data an iterator errs, never returns a wrong component. Correspondence: both iterators (+3 calls) and Get on boundary lengths (31/32/33, 255/256/257, 511/512/513), large limits, random series, and malformed backings (a pair grafted where a chunk is expected, a summarised node, a length above the limit: exhaustive over a small corpus).",
          "machine-checked proof (Coq) of the explicit state machines + differential correspondence"),
  "C18": ("packed-bitfield helpers agree with a bit-sequence model",
          "Theorems (Props/C18.v, 27 statements): BitlistCheck/BitvectorCheck accept exactly the spec-valid packings; length, get/set, ones-count, zero-test, covers expressed on the unpacked sequence; behaviour on invalid input stated. Correspondence: all strings <= 1 byte (2 thorough) x limits 0..40, 3-byte alphabet strings, random strings.",
@@ -73,7 +73,7 @@ T = {
          "Theorems (Props/C19.v, 30 statements): print/parse round trips for every width incl. uint256, no truncation (the narrowing casts are identities), decimal exactness, denotation of every accepted syntax, fixed-size hex accepts exactly 2k hex digits. strconv.ParseUint / math/big scanning are transcribed (trusted base). Correspondence: all uint8, uint16 (sampled in quick), boundary/random wider, ~2500 numeric texts x 6 entry points, hex texts of every length 0..80.",
          "machine-checked proof (Coq) + differential correspondence"),
  "C20": ("decoding memory is bounded by input size",
-         "Theorems (Props/C20.v): the instrumented decoder computes the same result as the decoder; its allocation charge is bounded by 2*perbyte(t)*|input| + foot(t) (C20_bound_top) and by perbyte(t) per byte actually consumed on success, where neither perbyte nor foot depends on a list limit (C20_bound_limit_free); a list length is accepted only if it fits the scope. Partial: the Go allocator is not modelled; measured TotalAlloc per call must stay within 4x the model's charge + 16 KiB. Correspondence: hostile offset words against limits up to 2^40, corruptions; view and flat decoders.",
+         "Theorems (Props/C20.v, 24 statements): view decoders — the instrumented decoder computes the same result as the decoder; its allocation charge is bounded by 2*perbyte(t)*|input| + foot(t) (C20_bound_top) and by perbyte(t) per byte actually consumed on success, where neither perbyte nor foot depends on a list limit (C20_bound_limit_free); a list length is accepted only if it fits the scope. Flat decoders (codec.DecodingReader helpers, tree.ReadRoots and destinations assembled as downstream users do) — the instrumented flat decoder is faithful (C20_flat_instrumentation_faithful) and charged at most 2*fperbyte(t)*|input| + fnew(t) + 96 + ffoot(t) (C20_flat_bound_top; for types whose bitvector lengths do not wrap uint64, or for any type on inputs below 2^61 bytes; the unrestricted success form is refuted by C20_flat_success_bound_needs_hypothesis), limit-free (C20_flat_bound_limit_free). Partial: the Go allocator is not modelled; measured TotalAlloc per call must stay within 4x the model's charge + 16 KiB, separately for the view and the flat decoder. Correspondence: hostile offset words against limits up to 2^40, corruptions; view and flat decoders.",
          "machine-checked proof (Coq) of the allocation accounting + measured allocation against the model"),
 }
 
